@@ -2,13 +2,13 @@ SPECIFICATION Spec
 CONSTANTS
   Files = {1}
   Texts = {3}
-  Classes = {"io", "simple", "proto", "stop", "remote"}
-  MaxInject = 1
-  MaxNoise = 0
-  WithBg = FALSE
-  WithDead = {}
+  Classes = {"io", "simple", "proto", "panic", "timeout", "stop", "remote"}
+  MaxInject = 0
+  MaxNoise = 1
+  WithBg = TRUE
+  WithDead = {"dead", "mute"}
   AsCoded = FALSE
   Mutant = "none"
 INVARIANTS TypeOK ToldAtMostOnce ToldUnlessPeerKnows KindMatchesTraceback ShownIsSent OnlyCreated TermResetOnce DrainBounded
-
+PROPERTIES Termination
 CHECK_DEADLOCK FALSE
